@@ -26,6 +26,7 @@ def parse_line(text):
             attrs.setdefault(k, []).extend(v.split(",") if v else [])
     elif len(f) > 8 and f[8]:
         for part in f[8].split(";"):
+            part = part.strip()                      # "; " and " ; " separators
             if "=" in part:
                 k, v = part.split("=", 1)
                 attrs.setdefault(k, []).extend(v.split(","))
